@@ -75,6 +75,13 @@ BREAKING = [
     ('sort-ordered-containers', 'C14', MAIN + 'elementraw.rs', r'if !self\.elemtype\.is_ordered\(\) && len > 1 \{', 'if len > 1 {', 'ordered containers are sorted'),
     ('range-start-not-advanced', 'C07', MAIN + 'elementraw.rs', r'start_pos = idx \+ 1;\n(\s*)end_pos = idx \+ 1;', 'end_pos = idx + 1;', 'range starts before an earlier sibling'),
     ('create-at-no-lower-bound', 'C07', MAIN + 'elementraw.rs', r'if start_pos <= position && position <= end_pos \{\n(\s*)self\.create_sub_element_inner', 'if position <= end_pos {\n\\1self.create_sub_element_inner', 'creation before the start of the range accepted'),
+    ('copyinner-wrong-position', 'C13', MAIN + 'elementraw.rs', r'self\.content\.insert\(position, ElementContent::Element\(newelem\.clone\(\)\)\);', 'self.content.insert(self.content.len(), ElementContent::Element(newelem.clone()));', 'the copy is appended instead of inserted at the position'),
+    ('uniquename-single-try', 'C13', MAIN + 'elementraw.rs', r'while model\.get_element_by_path\(&path\)\.is_some\(\) \{', 'if model.get_element_by_path(&path).is_some() {', 'only one alternative name is tried'),
+    ('deepcopy-attr-mask-dropped', 'C13', MAIN + 'elementraw.rs', r'if target_version\.compatible\(attr_version_mask\)\n\s*&& attribute', 'if attribute', 'attributes that do not exist in the target version are kept'),
+    ('deepcopy-subelement-any-version', 'C13', MAIN + 'elementraw.rs', r'\.find_sub_element\(sub_elem_name, target_version as u32\)\n(\s*)\.is_some\(\)', '.find_sub_element(sub_elem_name, u32::MAX)\n\\1.is_some()', 'sub-elements of other versions are kept'),
+    ('deepcopy-required-attr-dropped', 'C13', MAIN + 'elementraw.rs', r'\} else if required \{\n\s*return Err\(AutosarDataError::VersionIncompatibleData \{\n\s*version: target_version,\n\s*\}\);\n(\s*)\} else \{', '} else {', 'a required attribute that cannot be kept is dropped silently'),
+    ('move-guard-one-sided', 'C07', MAIN + 'element.rs', r'if version != version_src \{', 'if (version as u32) > (version_src as u32) {', 'moves from an older into a newer file are accepted'),
+    ('preserve-string-trimmed', 'C01', MAIN + 'parser.rs', r'let text = match std::str::from_utf8\(raw_text\) \{', 'let text = match std::str::from_utf8(trimmed_input) {', 'whitespace-preserving strings lose their padding'),
     ('set-attribute-string-no-version', 'C07', MAIN + 'elementraw.rs', r'if !version\.compatible\(attr_version\) \{', 'if !version.compatible(attr_version) && attr_version == 0 {', 'set_attribute_string accepts attributes of other versions'),
 ]
 
